@@ -1503,7 +1503,7 @@ impl Monitor for C03 {
         ]
     }
     fn rule(&self) -> String {
-        "long: byte strings of 256..1230 octets (random, data-frame shaped, small-CID sprinkled). Every input goes to all 12 entry points (parse, 3 frame parsers, 2 decrypt_in_place with arbitrary keys, 6 command iterators) and, on success, to every public accessor; FOpts and decrypted FRMPayloads are fed back to the 6 iterators as nested inputs. exh-0-2/exh-3: every byte string of length 0..2 / 3, all 16.8 M of them in both tiers (one case = one slab of 256 inputs sharing their leading octets); cid-trunc: every CID 0..255 x every truncation point of the longest form of the command in each of the 6 sets x {00, FF, random} fill, alone / after a whole command / followed by more octets, McGroupStatusAns for all 256 status octets; mhdr-grid: every MHDR x length 0..64 x FOptsLen 0..15; streams: valid command streams (hand-built from the specification table, the crate's creators and build_mac_commands) and 12 mutants each; frames: valid data/join frames carrying valid streams (reference encoder and the crate's builder) with true or foreign keys, every truncation, every FOptsLen, bit flips, extension, splice; random: random strings of every length 0..255. Class = (entry point, outcome class, first octet (CID/MHDR), octets left at the stop (iterators) or input length bucket (frames)).".into()
+        "long: byte strings of 256..1230 octets, one in eight of 4000..6300 octets (random, data-frame shaped, small-CID sprinkled). Every input goes to all 12 entry points (parse, 3 frame parsers, 2 decrypt_in_place with arbitrary keys, 6 command iterators) and, on success, to every public accessor; FOpts and decrypted FRMPayloads are fed back to the 6 iterators as nested inputs. exh-0-2/exh-3: every byte string of length 0..2 / 3, all 16.8 M of them in both tiers (one case = one slab of 256 inputs sharing their leading octets); cid-trunc: every CID 0..255 x every truncation point of the longest form of the command in each of the 6 sets x {00, FF, random} fill, alone / after a whole command / followed by more octets, McGroupStatusAns for all 256 status octets; mhdr-grid: every MHDR x length 0..64 x FOptsLen 0..15; streams: valid command streams (hand-built from the specification table, the crate's creators and build_mac_commands) and 12 mutants each; frames: valid data/join frames carrying valid streams (reference encoder and the crate's builder) with true or foreign keys, every truncation, every FOptsLen, bit flips, extension, splice; random: random strings of every length 0..255. Class = (entry point, outcome class, first octet (CID/MHDR), octets left at the stop (iterators) or input length bucket (frames)).".into()
     }
     fn assumptions(&self) -> Vec<String> {
         vec![
@@ -1726,7 +1726,8 @@ impl Monitor for C03 {
             "long" => {
                 // byte strings longer than any radio delivers (256..=1230 octets): 'no byte string'
                 // has no upper length
-                let len = 256 + (idx % 64) as usize * 15 + rng.below(15) as usize;
+                // (one in eight far beyond: 4000..6300 octets, more than 255 cipher blocks of FRMPayload)
+                let len = if idx % 8 == 7 { 4000 + (idx % 23) as usize * 100 + rng.below(100) as usize } else { 256 + (idx % 64) as usize * 15 + rng.below(15) as usize };
                 let mut v = rng.bytes(len);
                 match rng.below(3) {
                     0 => {
